@@ -2,3 +2,5 @@ import RpyProofs.Bridge
 import RpyProofs.Props.C01
 import RpyProofs.Props.C17
 import RpyProofs.Props.C20
+import RpyProofs.MatBridge
+import RpyProofs.Props.C04
